@@ -182,6 +182,7 @@ func (e *Engine) builtin(st *State, th *Thread, b *ssa.Builtin, args []Value, c 
 		nc := *cd
 		nc.closed = true
 		st.heap[ch.obj] = &nc
+		e.release(st, th, fmt.Sprintf("ch:%d", ch.obj))
 		return nil
 	case "print", "println":
 		return nil
@@ -232,7 +233,11 @@ func (e *Engine) appendOp(st *State, s SliceV, tv Value, st0 types.Type) Value {
 	}
 	sl := e.concInt(st, s.len)
 	sc := e.concInt(st, s.cap)
+	if tsl, ok := tv.(SliceV); ok {
+		e.raceAccess(st, tsl.obj, false)
+	}
 	if sl+n <= sc {
+		e.raceAccess(st, s.obj, true)
 		soff := e.concInt(st, s.off)
 		arr := st.heap[s.obj].(*ArrV)
 		idx := make([]int, n)
@@ -256,6 +261,7 @@ func (e *Engine) appendOp(st *State, s SliceV, tv Value, st0 types.Type) Value {
 	if sl > 0 {
 		soff := e.concInt(st, s.off)
 		arr := st.heap[s.obj].(*ArrV)
+		e.raceAccess(st, s.obj, false)
 		for i := 0; i < sl; i++ {
 			if v, ok := arr.m[soff+i]; ok {
 				m[i] = v
@@ -266,6 +272,7 @@ func (e *Engine) appendOp(st *State, s SliceV, tv Value, st0 types.Type) Value {
 		m[sl+i] = get(i)
 	}
 	obj := st.alloc(&ArrV{n: nc, def: e.zero(elemType(st0)), m: m})
+	e.markLibArray(st, obj)
 	_ = ts
 	return SliceV{obj: obj, off: e.i64(0), len: e.i64(uint64(sl + n)), cap: e.i64(uint64(nc))}
 }
@@ -294,6 +301,10 @@ func (e *Engine) copyOp(st *State, d SliceV, sv Value) Value {
 		return e.i64(0)
 	}
 	doff := e.concInt(st, d.off)
+	if ssl, ok := sv.(SliceV); ok {
+		e.raceAccess(st, ssl.obj, false)
+	}
+	e.raceAccess(st, d.obj, true)
 	idx := make([]int, n)
 	vals := make([]Value, n)
 	for i := 0; i < n; i++ {
@@ -319,6 +330,16 @@ func (e *Engine) execGo(st *State, th *Thread, fr *Frame, in *ssa.Go) {
 func (e *Engine) spawn(st *State, c *ssa.CallCommon, callee Value, args []Value, name string) *Thread {
 	nt := &Thread{id: len(st.threads), name: name}
 	st.threads = append(st.threads, nt)
+	if e.cfg.Race {
+		parent := st.thread()
+		pvc := e.vcOf(st, parent)
+		nt.vc = append([]int(nil), pvc...)
+		for len(nt.vc) <= nt.id {
+			nt.vc = append(nt.vc, 0)
+		}
+		nt.vc[nt.id] = 1
+		parent.vc[parent.id]++
+	}
 	if len(st.threads) > e.cfg.MaxThreads {
 		panic(inconclusive{"thread limit exceeded"})
 	}
